@@ -123,6 +123,15 @@ CHECKS["C10"] = dict(
     note="NOT decided: 'for all queries and graphs' as a universal statement about the planner (pure function of graph, query, configuration). Cache eviction is not reached (capacity 1000).",
 )
 
+CHECKS["C17"] = dict(
+    engine="PAR",
+    technique="deterministic simulation of thread schedules: ParallelPipeline's own scoped worker threads are handed to shuttle through a cfg-guarded std::thread::scope seam; every parking_lot lock operation and every atomic of scheduler.rs/pipeline.rs is a scheduling point; output compared with a brute-force sequential evaluation",
+    category="exploration",
+    text="Decides the schedule- and configuration-dependent part: for generated tables around the morsel boundaries and seven operator chains, 1-4 workers and five chunk sizes, every explored schedule (8 quick / 24 thorough per scenario; random and PCT) of morsel hand-out, stealing and result collection yields the rows (or mergeable partials) of sequential evaluation, the right rows_processed and morsel count, and no deadlock/panic.",
+    design_ref="DESIGN.md §3 C17",
+    note="NOT decided: pull-vs-push equality, single-threaded chunk/morsel-size independence, merge.rs/fold.rs as functions of their inputs (pure); spilling operators (tokio file I/O, no simulated runtime). crossbeam's deque runs real code but only in sequentially consistent interleavings at the granularity of the hooked points.",
+)
+
 NOT_APPLICABLE = {
     "C08": "pure function of (graph, query text): no schedule, clock, I/O, fault or shared state in the statement or its quantifier; differential/reference-interpreter testing is the fitting family, not simulation",
     "C09": "pure function of (graph, statistics state, query, optimizer switches); stale statistics are an input, not a schedule",
@@ -155,6 +164,7 @@ manifest = {
         {"name": "SNAP", "path": "sim/src/eng_snap.rs", "serves_properties": ["C07"], "kind_free_text": "copy routes over history-built graphs; byte faults on the snapshot blob"},
         {"name": "VEC", "path": "sim/src/eng_vec.rs", "serves_properties": ["C18"], "kind_free_text": "history simulator over HnswIndex with an id->vector model"},
         {"name": "TWIN", "path": "sim/src/eng_twin.rs", "serves_properties": ["C10"], "kind_free_text": "twin-database lock-step history simulator (indexes/cache/factorized vs none)"},
+        {"name": "PAR", "path": "sim/src/eng_par.rs", "serves_properties": ["C17"], "kind_free_text": "ParallelPipeline workers as shuttle threads via the scoped-thread seam"},
         {"name": "SCHED", "path": "sim/src/eng_sched.rs", "serves_properties": ["C20", "C03", "C13"], "kind_free_text": "shuttle-scheduled simulated threads over the real stores/managers via the parking_lot lock seam (shims/parking_lot) and hooked atomics"},
         {"name": "DISK", "path": "sim/src/eng_disk.rs", "serves_properties": ["C05", "C06"], "kind_free_text": "persistent GrafeoDB over a tapped tmpfs directory + simulated clock; crash images computed from the disk-event log"},
     ],
